@@ -486,6 +486,7 @@ func (r *runner) invoke(ctx context.Context, s M, ret M) {
 		var sess bmc.Session
 		var err error
 		r.mt.inSess = false
+		r.e.memo = map[string][]byte{} // session keys are per session
 		if api == "NewV2Session" {
 			opts := &bmc.V2SessionOpts{}
 			if s["keepOpts"] == true {
@@ -829,6 +830,15 @@ func (r *runner) run() {
 
 	var steps []any
 	nprefix := 0
+	npast := 0
+	if opts != nil && opts["past"] == true {
+		// the connection has a past (GenPast.tla): run before everything else, not traced, free to fail
+		if ps, ok := hdr["past"].([]any); ok {
+			steps = append(steps, ps...)
+			npast = len(steps)
+			nprefix = npast
+		}
+	}
 	if p, ok := sc["prefix"].(string); ok && p != "" {
 		steps = append(steps, m(hdr["prefixes"])[p].([]any)...)
 		nprefix = len(steps)
@@ -941,6 +951,19 @@ func (r *runner) run() {
 				// handshake events of a shared prefix are not part of this family's trace
 				ok := ret["err"] == false && ret["panic"] == nil
 				r.trace = r.trace[:mark]
+				if i < npast {
+					// whatever the past's calls returned is the past; only a crash there is worth a record
+					if ret["panic"] != nil || ret["hang"] == true {
+						r.ev(M{"ev": "pastBroke", "in": "past", "panic": ret["panic"], "api": s["api"]})
+						return
+					}
+					ok = true
+				}
+				if !ok && npast > 0 {
+					// the script's own session could not be established on a connection with a past
+					r.ev(M{"ev": "pastBroke", "in": "prefix", "errText": ret["errText"], "panic": ret["panic"], "api": s["api"]})
+					return
+				}
 				if !ok {
 					r.ev(M{"ev": "prefixFailed", "errText": ret["errText"], "panic": ret["panic"]})
 					return
